@@ -28,6 +28,9 @@ Configs ==
          {[Base EXCEPT !.rule = "STV", !.m = m, !.simul = sm, !.xfer = x, !.tb = tb] :
              m \in 1..NC, sm \in BOOLEAN, x \in {"fractional", "random"}, tb \in {"none", "random", "borda"}}
          \cup {[Base EXCEPT !.rule = "IRV", !.tb = tb] : tb \in {"none", "random"}}
+    [] Family = "droop_random" ->   \* integer arithmetic only (no fractional transfer): used by the simulation runs on larger models
+         {[Base EXCEPT !.rule = "STV", !.m = m, !.simul = sm, !.xfer = "random", !.tb = tb] :
+             m \in 1..NC, sm \in BOOLEAN, tb \in {"none", "random", "borda"}}
     [] Family = "oneshot" ->
          {[Base EXCEPT !.rule = r, !.m = m, !.tb = tb] : r \in {"Plurality", "SNTV"}, m \in 1..NC, tb \in {"none", "random", "borda", "first_place"}}
          \cup {[Base EXCEPT !.rule = "Borda", !.m = m, !.tb = tb, !.vec = v] : m \in 1..NC, tb \in {"none", "random", "first_place"},
